@@ -117,6 +117,10 @@ L1_VARIANTS = [("%s,t=%d,%s" % ("+".join(kinds), t, "override" if ov else "full"
 @harness("contiguous_read_channel_chunk", ["tdms_segment.ContiguousDataReader._read_channel_data_chunk",
                                            "tdms_segment.ContiguousDataReader._get_channel_number_values"],
          ["C01", "C04", "C06", "C19"], variants=L1_VARIANTS, setup=_setup_l1, level="shape-bounded",
+         thorough_variants=[("%s,t=%d,%s" % ("+".join(kinds), t, "override" if ov else "full"), (kinds, t, ov))
+                            for kinds in itertools.product(sorted(PALETTE), repeat=4) for t in range(5)
+                            for ov in (False, True)],
+         thorough_bound="4 data objects per segment over the same palette",
          bound="<= 3 data objects per segment over the type palette {Int16, DoubleFloat, TimeStamp, String}; "
                "target channel at every position or absent; value counts, sizes, chunk index, cursor symbolic")
 def _contig_channel_chunk(vc):
@@ -170,6 +174,9 @@ ALL_VARIANTS = [("%s,%s" % ("+".join(kinds), "override" if ov else "full"), (kin
 
 @harness("contiguous_read_data_chunk", ["tdms_segment.ContiguousDataReader._read_data_chunk"],
          ["C01", "C06", "C15"], variants=ALL_VARIANTS, setup=_setup_l1, level="shape-bounded",
+         thorough_variants=[("%s,%s" % ("+".join(kinds), "override" if ov else "full"), (kinds, ov))
+                            for kinds in itertools.product(sorted(PALETTE), repeat=4) for ov in (False, True)],
+         thorough_bound="4 data objects per segment over the same palette",
          bound="<= 3 data objects per segment over the type palette; counts, sizes, chunk index symbolic")
 def _contig_data_chunk(vc):
     kinds, has_ov = vc.variant
@@ -373,6 +380,10 @@ def _setup_seg_stream(interp):
                                   "tdms_segment.TdmsSegment._have_daqmx_objects",
                                   "tdms_segment.TdmsSegment._have_interleaved_data"],
          ["C04", "C05", "C19", "C01"], variants=SEG_VARIANTS, setup=_setup_seg_stream, level="shape-bounded",
+         thorough_variants=[("%s,t=%d,%s" % ("+".join(kinds), t, "override" if ov else "full"), (kinds, t, ov))
+                            for kinds in itertools.product(("i2", "f8", "str"), repeat=3) for t in range(4)
+                            for ov in (False, True)],
+         thorough_bound="3 data objects per segment over {Int16, DoubleFloat, String}",
          bound="<= 2 data objects per segment over {Int16, DoubleFloat, String}, target at every position or "
                "absent; unbounded number of chunks (loop invariant), symbolic counts / offsets; the file "
                "cursor is havocked at every yield")
@@ -488,6 +499,10 @@ ALL_SEG_VARIANTS = [("%s,%s,%s" % ("+".join(kinds), "override" if ov else "full"
 
 @harness("seg_read_raw_data", ["tdms_segment.TdmsSegment.read_raw_data", "tdms_segment.TdmsSegment._read_data_chunks"],
          ["C01", "C05", "C03"], variants=ALL_SEG_VARIANTS, setup=_setup_seg_all, level="shape-bounded",
+         thorough_variants=[("%s,%s,%s" % ("+".join(kinds), "override" if ov else "full", mode), (kinds, ov, mode))
+                            for kinds in itertools.product(("i2", "f8", "str"), repeat=3) for ov in (False, True)
+                            for mode in ("uninterrupted", "interruptible")],
+         thorough_bound="3 data objects per segment over {Int16, DoubleFloat, String}",
          bound="<= 2 data objects per segment over {Int16, DoubleFloat, String}; unbounded number of chunks "
                "(loop invariant); in mode `interruptible` the file cursor is havocked at every yield")
 def _seg_read_raw_data(vc):
@@ -516,3 +531,192 @@ def _seg_read_raw_data(vc):
     g = vc.call_method(seg, "read_raw_data", f)
     out = vc.drain(g.value)
     vc.ensure("no-exception", out.kind == "ret")
+
+
+# =====================================================================================================================
+# ContiguousDataReader._read_channel_data_chunk for ANY number of data objects in the segment
+# =====================================================================================================================
+
+from pyvc.sym import SymBool
+
+I_ = z3.IntSort()
+NVo = z3.Function("OBJ_NV", I_, I_)          # number_values of data object j
+DSo = z3.Function("OBJ_DS", I_, I_)          # data_size of data object j (bytes per full chunk)
+Wo = z3.Function("OBJ_W", I_, I_)            # value width of a sized type
+UNS = z3.Function("OBJ_UNSIZED", I_, z3.BoolSort())
+CNTO = z3.Function("OBJ_OVCNT", I_, I_)      # final_chunk_lengths_override entry (0 if absent)
+PRE = z3.Function("OBJ_PRE", I_, I_)         # bytes of objects 0..j-1 in the chunk being read
+
+
+def zi_(v):
+    return sym.z3int(v)
+
+
+class PathTok(object):
+    """path of data object j; equal to the requested path iff j is the target index"""
+    _absent = ()
+
+    def __init__(self, j, T):
+        self.j, self.T = j, T
+
+    def __eq__(self, o):
+        if isinstance(o, PathTok):
+            return _lift(zi_(self.j) == zi_(o.j))
+        if o == "<requested path>":
+            return _lift(zi_(self.j) == zi_(self.T))
+        return False
+
+    def __hash__(self):
+        return id(self)
+
+
+class TypeOf(object):
+    """obj.data_type of data object j: `size` is None for an unsized (string) type"""
+    _absent = ()
+
+    def __init__(self, j):
+        self.j = j
+
+    @property
+    def size(self):
+        st = sym.get_state()
+        if st.decide(UNS(zi_(self.j))):
+            return None
+        return _lift(Wo(zi_(self.j)))
+
+
+class OvMap(object):
+    """final_chunk_lengths_override: path -> values in the final chunk (absent paths count 0)"""
+    _absent = ()
+
+    def get(self, path, default=None):
+        if isinstance(path, PathTok):
+            return _lift(CNTO(zi_(path.j)))
+        raise sym.Unsupported("override lookup of a foreign path")
+
+
+def obj_facts(st, j, lastov):
+    """Segment.wf() for data object j and the defining equation of the skip prefix"""
+    j = zi_(j)
+    cnt = z3.If(lastov, CNTO(j), NVo(j))
+    by = z3.If(cnt == NVo(j), DSo(j), Wo(j) * cnt)
+    st.add_fact(z3.And(NVo(j) >= 0, DSo(j) >= 0, Wo(j) > 0, CNTO(j) >= 0, CNTO(j) <= NVo(j),
+                       z3.Implies(z3.Not(UNS(j)), DSo(j) == NVo(j) * Wo(j)),
+                       PRE(j + 1) == PRE(j) + by))
+
+
+def _setup_l1_all(interp):
+    interp.contracts_at_calls["nptdms.tdms_segment:TdmsSegmentObject.read_values"] = read_values_contract
+
+    def inv(env, k, st):
+        g = st.ghost["l1"]
+        obj_facts(st, k, g["lastov"])
+        j = z3.Int(sym.fresh_name("j"))
+        cntj = z3.If(g["lastov"], CNTO(j), NVo(j))
+        f = g["file"]
+        ch = env.vars["channel_data"]
+        return [("target-not-passed", k <= g["T"]),
+                ("position-skips-exactly-the-preceding-objects' bytes",
+                 env.vars["current_position"] == g["pos0"] + _lift(PRE(zi_(k)))),
+                ("nothing-read-and-cursor-untouched-before-the-target", len(f.reads) == 0 and
+                 _lift(zi_(f.pos) == zi_(g["pos0"]))),
+                ("result-still-the-empty-chunk", ch.data is None and ch.scaler_data is None),
+                ("no-truncated-unsized-object-was-skipped",
+                 SymBool(z3.ForAll([j], z3.Implies(z3.And(0 <= j, j < zi_(k)),
+                                                  z3.Not(z3.And(UNS(j), cntj != NVo(j))))))),
+                ]
+    def empty_chunk(st, env):
+        # the invariant pins channel_data to the empty chunk at every loop head (it is assigned only right
+        # before `break`), so the havocked value is an arbitrary chunk object satisfying that clause
+        o = Obj(interp.get("base_segment.RawChannelDataChunk"))
+        o._f.update(data=None, scaler_data=None)
+        return o
+    interp.loop_specs[("nptdms.tdms_segment:ContiguousDataReader._read_channel_data_chunk", 0)] = LoopSpec(
+        inv, havoc={"current_position": "int", "channel_data": empty_chunk,
+                    "__locals__": ("obj", "number_values")}, name="objects")
+
+
+L1ALL_VARIANTS = [("target=%s,%s" % (k, "override" if ov else "full"), (k, ov))
+                  for k in ("i2", "f8", "ts", "str", "absent") for ov in (False, True)]
+
+
+@harness("contiguous_read_channel_chunk_all_objects",
+         ["tdms_segment.ContiguousDataReader._read_channel_data_chunk",
+          "tdms_segment.ContiguousDataReader._get_channel_number_values"],
+         ["C01", "C04", "C06", "C19"], variants=L1ALL_VARIANTS, setup=_setup_l1_all, timeout_ms=60000,
+         note="ANY number of data objects in the segment (loop invariant: the position skipped so far is the sum of "
+              "the preceding objects' bytes in this chunk): the requested channel is read from its slot, once, "
+              "and nothing else is read; a truncated unsized object before it raises")
+def _contig_channel_chunk_all(vc):
+    kind, has_ov = vc.variant
+    st = vc.st
+    it = vc.interp
+    f, pos0 = mk_file(vc)
+    NOBJ = vc.int("nobj", lo=0)
+    T = vc.int("target", lo=0)
+    vc.assume(T <= NOBJ)
+    if kind == "absent":
+        vc.assume(T == NOBJ)
+    else:
+        vc.assume(T < NOBJ)
+    NCs = vc.int("num_chunks", lo=1)
+    k = vc.int("chunk_index", lo=0)
+    vc.assume(k < NCs)
+    lastov = z3.And(z3.BoolVal(bool(has_ov)), zi_(k) == zi_(NCs) - 1)
+    st.add_fact(PRE(0) == 0)
+    st.ghost["l1"] = dict(T=T, pos0=pos0, file=f, lastov=lastov)
+    width = None if kind in ("str", "absent") else L.TYPES[PALETTE[kind]][1]
+    if kind not in ("absent",):
+        Tz = zi_(T)
+        st.add_fact(UNS(Tz) == z3.BoolVal(kind == "str"))
+        if width is not None:
+            st.add_fact(Wo(Tz) == width)
+
+    def item(j):
+        obj_facts(st, j, lastov)
+        is_t = kind != "absent" and it.truth(_lift(zi_(j) == zi_(T)))
+        o = Obj(it.get("tdms_segment.TdmsSegmentObject"))
+        jz = zi_(j)
+        o._f.update(path=PathTok(j, T), number_values=_lift(NVo(jz)), data_size=_lift(DSo(jz)), has_data=True,
+                    data_type=(tclass(vc, PALETTE[kind]) if is_t else TypeOf(j)))
+        o._f["__width"] = width if is_t else "symbolic"
+        object.__setattr__(o, "_partial", True)
+        return o
+    objs = SymSeq(NOBJ, item, "data objects")
+    rd = vc.new("tdms_segment.ContiguousDataReader", num_chunks=NCs,
+                final_chunk_lengths_override=(OvMap() if has_ov else None), endianness="<")
+    out = vc.call_method(rd, "_read_channel_data_chunk", f, objs, k, "<requested path>")
+    j = vc.int("j")
+    jz = zi_(j)
+    cntj = z3.If(lastov, CNTO(jz), NVo(jz))
+    blocked_j = z3.And(UNS(jz), cntj != NVo(jz))
+    if out.kind == "exc":
+        # some object before the target is unsized and truncated (the code cannot skip it): witnessed by the
+        # iteration that raised (__k__ of the loop)
+        vc.ensure("raises-only-when-a-truncated-unsized-channel-precedes", out.exc is Exception)
+        return
+    vc.ensure("no-truncated-unsized-object-before-the-target",
+              Implies(And(0 <= j, j < T), SymBool(z3.Not(blocked_j))))
+    r = out.value
+    if kind == "absent":
+        vc.ensure("absent-channel-gives-empty-chunk", And(r.data is None, r.scaler_data is None))
+        vc.ensure("absent-channel-reads-nothing", len(f.reads) == 0, kind="read-set")
+        return
+    Tz = zi_(T)
+    before = _lift(PRE(Tz))
+    cntT = _lift(z3.If(lastov, CNTO(Tz), NVo(Tz)))
+    a = r.data
+    vc.ensure("channel-found", a is not None)
+    if a is None:
+        return
+    vc.ensure("values-come-from-the-channel's-slot-in-the-chunk", a.base == pos0 + before)
+    if width is not None:
+        avail = Max(f.size - (pos0 + before), 0)
+        vc.ensure("value-count", Implies(cntT * width <= avail, a.count == cntT))
+        vc.ensure("never-more-than-the-chunk-holds", a.count <= cntT)
+        for (p, n) in f.reads:
+            vc.ensure("reads-only-the-channel's-bytes",
+                      And(p >= pos0 + before, p + n <= pos0 + before + cntT * width), kind="read-set")
+    else:
+        vc.ensure("value-count", a.count == cntT)
+    vc.ensure("one-read-per-chunk", len(f.reads) == 1, kind="read-set")
